@@ -77,6 +77,8 @@ Lemma kleaves_one p : kleaves [p] = leaves (snd p).
 Proof. unfold kleaves. simpl. apply app_nil_r. Qed.
 Lemma kbs_one p : kbs [p] = (fst p, leaves (snd p), isleaf (snd p)) :: bsplits (snd p).
 Proof. unfold kbs. simpl. now rewrite app_nil_r. Qed.
+Lemma wfk_some p : wfk (Some p) = wf_sub (snd p).
+Proof. now destruct p. Qed.
 Lemma kleaves_nil : kleaves [] = [].
 Proof. reflexivity. Qed.
 Lemma kbs_nil : kbs [] = [].
@@ -100,14 +102,27 @@ Section Local.
 
   Lemma leaves_n2 : Permutation (leaves (pic_n2 j P)) (leaves (snd mv) ++ leaves (snd st)).
   Proof.
-    unfold pic_n2. rewrite leaves_pl by (simpl; discriminate). simpl.
-    rewrite !kleaves_one. subst mv st. unfold moved, stay. destruct cross; simpl; perm.
+    unfold pic_n2. rewrite leaves_pl by (simpl; discriminate). cbn [ko].
+    rewrite kleaves_nil, !kleaves_one. subst mv st. unfold moved, stay. destruct cross; cbn [app]; perm.
   Qed.
 
   Lemma bsplits_n2 : Permutation (bsplits (pic_n2 j P)) (kbs [mv] ++ kbs [st]).
   Proof.
-    unfold pic_n2. rewrite bsplits_pl. simpl.
-    subst mv st. unfold moved, stay. destruct cross; simpl; perm.
+    unfold pic_n2. rewrite bsplits_pl. cbn [ko]. rewrite kbs_nil.
+    subst mv st. unfold moved, stay. destruct cross; cbn [app]; perm.
+  Qed.
+
+  Lemma isleaf_n2 : isleaf (pic_n2 j P) = false.
+  Proof.
+    unfold pic_n2. apply isleaf_false. intros E.
+    pose proof (kids_pl j None (Some (p_y1 P)) (Some (p_y2 P))) as HP. rewrite E in HP.
+    apply Permutation_nil in HP. discriminate.
+  Qed.
+
+  Lemma n2_kids_wf : wf_sub (pic_n2 j P) = true -> wf_sub (snd mv) = true /\ wf_sub (snd st) = true.
+  Proof.
+    unfold pic_n2. rewrite wf_sub_pl. rewrite !wfk_some. change (wfk Up) with true. cbn [upk Nat.add Nat.eqb andb].
+    intros H. apply andb_true_iff in H. subst mv st. unfold moved, stay. destruct cross; tauto.
   Qed.
 
   (** the lower node after the exchange holds [v] instead of the moved child *)
@@ -134,7 +149,7 @@ Section Local.
     Let n2' := UNode (p_ny P) (p_cy P) (pl j None (put cross (Some mv1) (Some (p_y1 P), Some (p_y2 P)))).
 
     Lemma xs_plain : p_xs P = (fst (p_xs P), Some mv1).
-    Proof. destruct (p_xs P); simpl in *; congruence. Qed.
+    Proof. revert Hx. destruct (p_xs P); simpl; congruence. Qed.
 
     Lemma leaves_n2'_plain : Permutation (leaves n2') (leaves (snd mv1) ++ leaves (snd st)).
     Proof.
@@ -159,19 +174,19 @@ Section Local.
     Lemma wf_sub_n2'_plain :
       wf_sub (pic_n2 j P) = true -> wf_sub (snd mv1) = true -> wf_sub n2' = true.
     Proof.
-      subst n2'. unfold pic_n2. rewrite !wf_sub_pl. simpl. unfold put.
-      destruct cross, mv1 as [e1 a], (p_y1 P) as [? ?], (p_y2 P) as [? ?]; simpl;
-        rewrite ?andb_true_r; intros H1 H2; apply andb_true_iff in H1; destruct H1; now apply andb_true_iff.
+      subst n2'. unfold pic_n2, put. destruct cross; cbn [fst snd]; rewrite !wf_sub_pl.
+      all: destruct mv1 as [e1 a], (p_y1 P) as [? u1], (p_y2 P) as [? u2]; simpl; intros H1 H2;
+        apply andb_true_iff in H1; destruct H1 as [H1a H1b]; simpl in H2; rewrite ?H1a, ?H1b, ?H2; reflexivity.
     Qed.
 
     Lemma plain_eq :
       s' = UNode (p_nx P) (p_cx P) (pl k (Some (p_ec P, n2')) (fst (p_xs P), Some mv)).
     Proof.
-      subst s' n2' mv. unfold pic_plain. rewrite xs_plain at 1. reflexivity.
+      unfold s', n2', mv, pic_plain. rewrite xs_plain at 1. reflexivity.
     Qed.
     Lemma s_eq :
       s = UNode (p_nx P) (p_cx P) (pl k (Some (p_ec P, pic_n2 j P)) (fst (p_xs P), Some mv1)).
-    Proof. subst s. unfold pic_n1. rewrite xs_plain at 1. reflexivity. Qed.
+    Proof. unfold s, pic_n1. rewrite xs_plain at 1. reflexivity. Qed.
 
     Lemma plain_leaves : Permutation (leaves s) (leaves s').
     Proof.
@@ -179,31 +194,24 @@ Section Local.
       rewrite !kleaves_one. simpl. rewrite leaves_n2, leaves_n2'_plain. fold mv st. perm.
     Qed.
 
-    Lemma plain_wf_sub : wf_sub s = true -> wf_sub s' = true.
+    Lemma plain_wf_gen (u : nat) :
+      Nat.eqb (upk (Some (p_ec P, pic_n2 j P)) + upk (fst (p_xs P)) + upk (Some mv1)) u &&
+      (wfk (Some (p_ec P, pic_n2 j P)) && wfk (fst (p_xs P)) && wfk (Some mv1)) = true ->
+      Nat.eqb (upk (Some (p_ec P, n2')) + upk (fst (p_xs P)) + upk (Some mv)) u &&
+      (wfk (Some (p_ec P, n2')) && wfk (fst (p_xs P)) && wfk (Some mv)) = true.
     Proof.
-      rewrite plain_eq, s_eq, !wf_sub_pl. simpl. intros H.
-      apply andb_true_iff in H. destruct H as [H0 H]. rewrite H0. simpl.
-      destruct mv1 as [e1 a] eqn:E1. rewrite <- E1 in *.
+      cbn [upk]. intros H. apply andb_true_iff in H. destruct H as [H0 H]. rewrite H0.
       apply andb_true_iff in H. destruct H as [H H3]. apply andb_true_iff in H. destruct H as [H1 H2].
-      assert (W2 := H1). unfold pic_n2 in W2. rewrite wf_sub_pl in W2. simpl in W2.
-      rewrite wf_sub_n2'_plain; auto; [|now rewrite E1].
-      rewrite H2. simpl. subst mv. unfold moved.
-      destruct cross, (p_y1 P) as [? ?], (p_y2 P) as [? ?]; simpl in *;
-        rewrite ?andb_true_r in W2; apply andb_true_iff in W2; tauto.
+      rewrite H2. rewrite wfk_some in H1, H3. cbn [snd] in H1.
+      destruct (n2_kids_wf H1) as [Wm Ws].
+      rewrite !wfk_some. cbn [snd]. rewrite (wf_sub_n2'_plain H1 H3). fold mv in Wm. now rewrite Wm.
     Qed.
 
+    Lemma plain_wf_sub : wf_sub s = true -> wf_sub s' = true.
+    Proof. rewrite plain_eq, s_eq, !wf_sub_pl. apply plain_wf_gen. Qed.
+
     Lemma plain_wf : wf s = true -> wf s' = true.
-    Proof.
-      rewrite plain_eq, s_eq, !wf_pl. simpl. intros H.
-      apply andb_true_iff in H. destruct H as [H0 H]. rewrite H0. simpl.
-      destruct mv1 as [e1 a] eqn:E1. rewrite <- E1 in *.
-      apply andb_true_iff in H. destruct H as [H H3]. apply andb_true_iff in H. destruct H as [H1 H2].
-      assert (W2 := H1). unfold pic_n2 in W2. rewrite wf_sub_pl in W2. simpl in W2.
-      rewrite wf_sub_n2'_plain; auto; [|now rewrite E1].
-      rewrite H2. simpl. subst mv. unfold moved.
-      destruct cross, (p_y1 P) as [? ?], (p_y2 P) as [? ?]; simpl in *;
-        rewrite ?andb_true_r in W2; apply andb_true_iff in W2; tauto.
-    Qed.
+    Proof. rewrite plain_eq, s_eq, !wf_pl. apply plain_wf_gen. Qed.
 
     (** the branches: the central one now separates n1_2 + the staying child from the rest *)
     Definition rest_plain : list (einfo * list string * bool) :=
@@ -212,16 +220,15 @@ Section Local.
     Lemma plain_bsplits_before :
       Permutation (bsplits s) ((p_ec P, leaves (pic_n2 j P), false) :: rest_plain).
     Proof.
-      rewrite s_eq, bsplits_pl. simpl ko. rewrite kbs_one at 1. cbn [fst snd].
-      unfold pic_n2 at 2. rewrite isleaf_pl. fold (pic_n2 j P).
-      rewrite bsplits_n2. unfold rest_plain. fold mv st. perm.
+      rewrite s_eq, bsplits_pl. cbn [ko]. rewrite kbs_one at 1. cbn [fst snd].
+      rewrite isleaf_n2, bsplits_n2. unfold rest_plain. fold mv st. perm.
     Qed.
 
     Lemma plain_bsplits_after :
       Permutation (bsplits s') ((p_ec P, leaves n2', false) :: rest_plain).
     Proof.
-      rewrite plain_eq, bsplits_pl. simpl ko. rewrite kbs_one at 1. cbn [fst snd].
-      rewrite isleaf_n2'_plain, bsplits_n2'_plain. unfold rest_plain. perm.
+      rewrite plain_eq, bsplits_pl. cbn [ko]. rewrite kbs_one at 1. cbn [fst snd].
+      rewrite isleaf_n2'_plain, bsplits_n2'_plain. unfold rest_plain. fold mv st. perm.
     Qed.
   End Plain.
 
@@ -234,16 +241,16 @@ Section Local.
     Let n1' := UNode (p_nx P) (p_cx P) (pl k None (fst (p_xs P), Some mv)).
 
     Lemma xs_flip : p_xs P = (fst (p_xs P), None).
-    Proof. destruct (p_xs P); simpl in *; congruence. Qed.
+    Proof. revert Hx. destruct (p_xs P); simpl; congruence. Qed.
 
     Lemma s_eq_flip :
       s = UNode (p_nx P) (p_cx P) (pl k (Some (p_ec P, pic_n2 j P)) (fst (p_xs P), None)).
-    Proof. subst s. unfold pic_n1. rewrite xs_flip at 1. reflexivity. Qed.
+    Proof. unfold s, pic_n1. rewrite xs_flip at 1. reflexivity. Qed.
 
     Lemma flip_eq :
       s' = UNode (p_ny P) (p_cy P)
                  (pl j (Some (p_ec P, n1')) (put cross None (Some (p_y1 P), Some (p_y2 P)))).
-    Proof. subst s' n1' mv. unfold pic_flip. rewrite xs_flip at 1. reflexivity. Qed.
+    Proof. unfold s', n1', mv, pic_flip. rewrite xs_flip at 1. reflexivity. Qed.
 
     Lemma put_none_kids :
       let ys := put cross None (Some (p_y1 P), Some (p_y2 P)) in
@@ -267,21 +274,16 @@ Section Local.
       rewrite !leaves_pl by (simpl; discriminate). simpl ko. rewrite !kleaves_one. cbn [fst snd].
       rewrite leaves_n2, leaves_n1'. fold mv st.
       rewrite <- !kleaves_app, (kleaves_perm _ _ HK), kleaves_one.
-      destruct (fst (p_xs P)) as [[e c]|]; simpl; [rewrite kleaves_one|]; simpl; perm.
+      destruct (fst (p_xs P)) as [[e c]|]; cbn [ko corner app]; rewrite ?kleaves_one, ?kleaves_nil; cbn [snd]; perm.
     Qed.
 
     Lemma flip_wf_sub : wf_sub s = true -> wf_sub s' = true.
     Proof.
-      rewrite flip_eq, s_eq_flip. destruct put_none_kids as (E & _ & HU & HW). cbv zeta in E, HU, HW. rewrite E.
-      rewrite !wf_sub_pl. rewrite HU. simpl. rewrite <- andb_assoc, HW.
-      subst n1'. rewrite wf_sub_pl. simpl.
-      intros H. apply andb_true_iff in H. destruct H as [H0 H].
-      rewrite andb_true_r in H. apply andb_true_iff in H. destruct H as [H1 H2].
-      unfold pic_n2 in H1. rewrite wf_sub_pl in H1. simpl in H1.
-      assert (U1 : upk (fst (p_xs P)) = 0) by (destruct (fst (p_xs P)); simpl in *; [reflexivity|discriminate]).
-      rewrite U1, H2. simpl. subst mv st. unfold moved, stay.
-      destruct cross, (p_y1 P) as [? ?], (p_y2 P) as [? ?]; simpl in *;
-        rewrite ?andb_true_r in H1; apply andb_true_iff in H1; destruct H1 as [-> ->]; reflexivity.
+      rewrite flip_eq, s_eq_flip. unfold n1', mv, pic_n2, moved, put.
+      destruct cross; cbn [fst snd]; repeat (rewrite ?wf_sub_pl, ?wfk_some; cbn [snd]);
+        change (wfk Up) with true; cbn [upk];
+        destruct (fst (p_xs P)) as [[e4 c]|]; cbn [upk wfk Nat.add Nat.eqb andb];
+        destruct (wf_sub (snd (p_y1 P))), (wf_sub (snd (p_y2 P))); try destruct (wf_sub c); simpl; auto.
     Qed.
 
     Definition rest_flip : list (einfo * list string * bool) :=
@@ -290,9 +292,8 @@ Section Local.
     Lemma flip_bsplits_before :
       Permutation (bsplits s) ((p_ec P, leaves (pic_n2 j P), false) :: rest_flip).
     Proof.
-      rewrite s_eq_flip, bsplits_pl. simpl ko. rewrite kbs_one at 1. cbn [fst snd].
-      unfold pic_n2 at 2. rewrite isleaf_pl. fold (pic_n2 j P).
-      rewrite bsplits_n2. unfold rest_flip. fold mv st. simpl. perm.
+      rewrite s_eq_flip, bsplits_pl. cbn [ko]. rewrite kbs_one at 1. cbn [fst snd].
+      rewrite isleaf_n2, bsplits_n2, kbs_nil. unfold rest_flip. fold mv st. perm.
     Qed.
 
     Lemma isleaf_n1' : isleaf n1' = false.
@@ -305,9 +306,165 @@ Section Local.
       Permutation (bsplits s') ((p_ec P, leaves n1', false) :: rest_flip).
     Proof.
       rewrite flip_eq. destruct put_none_kids as (E & HK & _). cbv zeta in E, HK. rewrite E.
-      rewrite bsplits_pl. simpl ko. rewrite kbs_one at 1. cbn [fst snd].
+      rewrite bsplits_pl. cbn [ko]. rewrite kbs_one at 1. cbn [fst snd].
       rewrite isleaf_n1'. rewrite <- kbs_app, (kbs_perm _ _ HK).
-      subst n1'. rewrite bsplits_pl. simpl ko. unfold rest_flip. simpl. perm.
+      unfold n1' at 2. rewrite bsplits_pl. cbn [ko]. rewrite kbs_nil. unfold rest_flip. perm.
     Qed.
   End Flip.
 End Local.
+
+(** * lifting through the path from the root *)
+Lemma kids_of_nth sl k x :
+  nth_error sl k = Some (Some x) ->
+  kids_of sl = kids_of (firstn k sl) ++ x :: kids_of (skipn (S k) sl).
+Proof.
+  revert k; induction sl as [|s r IH]; intros [|k]; simpl; intros H; try discriminate.
+  - now inversion H.
+  - rewrite (IH _ H). now destruct s.
+Qed.
+
+Lemma kids_of_set_nth_some sl k x y :
+  nth_error sl k = Some (Some x) ->
+  kids_of (set_nth k (Some y) sl) = kids_of (firstn k sl) ++ y :: kids_of (skipn (S k) sl).
+Proof.
+  unfold set_nth. revert k; induction sl as [|s r IH]; intros [|k]; simpl; intros H; try discriminate.
+  - reflexivity.
+  - rewrite (IH _ H). now destruct s.
+Qed.
+
+Lemma n_up_set_nth_some sl k x y :
+  nth_error sl k = Some (Some x) -> n_up (set_nth k (Some y) sl) = n_up sl.
+Proof.
+  intros H. pose proof (length_set_nth k (Some y) sl) as L. rewrite !length_slots in L.
+  rewrite (kids_of_set_nth_some _ _ _ y H), (kids_of_nth _ _ _ H) in L.
+  rewrite !app_length in L. simpl in L. lia.
+Qed.
+
+Lemma leaves_kids_app n c sl A x B :
+  kids_of sl = A ++ x :: B -> leaves (UNode n c sl) = kleaves A ++ leaves (snd x) ++ kleaves B.
+Proof.
+  intros H. rewrite leaves_unfold, H.
+  change (x :: B) with ([x] ++ B). rewrite !kleaves_app, kleaves_one.
+  destruct A; reflexivity.
+Qed.
+
+Definition central := (einfo * list string * bool)%type.
+
+(** [s'] has the tips of [s], both are inner nodes, and their branches are the same
+    (same side) but for [c0] replaced by [c1] *)
+Definition lrel (c0 c1 : central) (s s' : utree) : Prop :=
+  Permutation (leaves s) (leaves s') /\ isleaf s = false /\ isleaf s' = false /\
+  (wf_sub s = true -> wf_sub s' = true) /\
+  exists rest rest', Permutation (bsplits s) (c0 :: rest) /\ Permutation (bsplits s') (c1 :: rest') /\
+                     PermR bs_same rest rest'.
+
+Lemma lrel_step c0 c1 s s' n c sl k e :
+  lrel c0 c1 s s' -> nth_error sl k = Some (Some (e, s)) ->
+  lrel c0 c1 (UNode n c sl) (UNode n c (set_nth k (Some (e, s')) sl)).
+Proof.
+  intros (HL & I0 & I1 & HW & rest & rest' & B0 & B1 & HR) E.
+  pose proof (kids_of_nth _ _ _ E) as K0.
+  pose proof (kids_of_set_nth_some _ _ _ (e, s') E) as K1.
+  set (A := kids_of (firstn k sl)) in *. set (B := kids_of (skipn (S k) sl)) in *.
+  repeat split.
+  - rewrite (leaves_kids_app _ _ _ _ _ _ K0), (leaves_kids_app _ _ _ _ _ _ K1). cbn [snd]. now rewrite HL.
+  - apply isleaf_false. rewrite K0. now destruct A.
+  - apply isleaf_false. rewrite K1. now destruct A.
+  - rewrite !wf_sub_unfold, (n_up_set_nth_some _ _ _ _ E), K0, K1, !forallb_app. cbn [forallb snd].
+    intros H. apply andb_true_iff in H. destruct H as [H0 H]. rewrite H0.
+    apply andb_true_iff in H. destruct H as [HA H]. apply andb_true_iff in H. destruct H as [Hs HB].
+    now rewrite HA, HB, (HW Hs).
+  - exists (kbs A ++ (e, leaves s, isleaf s) :: rest ++ kbs B),
+           (kbs A ++ (e, leaves s', isleaf s') :: rest' ++ kbs B).
+    repeat split.
+    + rewrite bsplits_unfold, K0.
+      change ((e, s) :: B) with ([(e, s)] ++ B). rewrite !kbs_app, kbs_one. cbn [fst snd].
+      rewrite B0. perm.
+    + rewrite bsplits_unfold, K1.
+      change ((e, s') :: B) with ([(e, s')] ++ B). rewrite !kbs_app, kbs_one. cbn [fst snd].
+      rewrite B1. perm.
+    + apply PermR_app; [apply bs_same_Equivalence|reflexivity|].
+      apply PR_skip.
+      * repeat split; cbn [fst snd]; auto. congruence.
+      * apply PermR_app; [apply bs_same_Equivalence|exact HR|reflexivity].
+Qed.
+
+Lemma lrel_path c0 c1 f p : forall t t' s s',
+  node_at t p = Some s -> f s = Some s' -> at_path f p t = Some t' ->
+  lrel c0 c1 s s' -> lrel c0 c1 t t'.
+Proof.
+  induction p as [|k q IH]; intros t t' s s' Hn Hf Ha HL; simpl in *.
+  - inversion Hn; subst. rewrite Hf in Ha. now inversion Ha; subst.
+  - destruct t as [n c sl]. simpl in Hn.
+    destruct (nth_error sl k) as [[[e ch]|]|] eqn:E; try discriminate.
+    destruct (at_path f q ch) as [ch'|] eqn:E'; [|discriminate]. inversion Ha; subst.
+    apply (lrel_step c0 c1 ch ch'); auto. eapply (IH ch ch' s s'); eauto.
+Qed.
+
+(** well-formedness at the root *)
+Lemma wf_step s s' n c sl k e :
+  (wf_sub s = true -> wf_sub s' = true) -> nth_error sl k = Some (Some (e, s)) ->
+  wf (UNode n c sl) = true -> wf (UNode n c (set_nth k (Some (e, s')) sl)) = true.
+Proof.
+  intros HW E.
+  rewrite !wf_unfold, (n_up_set_nth_some _ _ _ _ E), (kids_of_nth _ _ _ E),
+    (kids_of_set_nth_some _ _ _ (e, s') E), !forallb_app. cbn [forallb snd].
+  intros H. apply andb_true_iff in H. destruct H as [H0 H]. rewrite H0.
+  apply andb_true_iff in H. destruct H as [HA H]. apply andb_true_iff in H. destruct H as [Hs HB].
+  now rewrite HA, HB, (HW Hs).
+Qed.
+
+(** * the leaves outside a subtree *)
+Fixpoint outside (t : utree) (p : list nat) : list string :=
+  match p with
+  | [] => []
+  | k :: q =>
+    match t with
+    | UNode _ _ sl =>
+      kleaves (kids_of (firstn k sl)) ++ kleaves (kids_of (skipn (S k) sl)) ++
+      match nth_error sl k with Some (Some (_, ch)) => outside ch q | _ => [] end
+    end
+  end.
+
+Lemma leaves_outside p : forall t s,
+  node_at t p = Some s -> Permutation (leaves t) (outside t p ++ leaves s).
+Proof.
+  induction p as [|k q IH]; intros t s H; simpl in H.
+  - inversion H; subst. reflexivity.
+  - destruct t as [n c sl]. simpl in H. cbn [outside].
+    destruct (nth_error sl k) as [[[e ch]|]|] eqn:E; try discriminate.
+    rewrite (leaves_kids_app _ _ _ _ _ _ (kids_of_nth _ _ _ E)). cbn [snd].
+    rewrite (IH _ _ H). perm.
+Qed.
+
+Lemma leaves_nonempty t : leaves t <> [].
+Proof.
+  induction t as [n c sl IH] using utree_ind'. rewrite leaves_unfold.
+  destruct (kids_of sl) as [|[e ch] K] eqn:E; [discriminate|].
+  assert (In (Some (e, ch)) sl) by (apply kids_of_In; rewrite E; now left).
+  rewrite Forall_forall in IH. specialize (IH _ H). cbn in IH.
+  change ((e, ch) :: K) with ([(e, ch)] ++ K). rewrite kleaves_app, kleaves_one. cbn [snd].
+  destruct (leaves ch); [contradiction|discriminate].
+Qed.
+
+Lemma kleaves_nonempty K : K <> [] -> kleaves K <> [].
+Proof.
+  destruct K as [|p K]; [congruence|]. intros _.
+  change (p :: K) with ([p] ++ K). rewrite kleaves_app, kleaves_one.
+  pose proof (leaves_nonempty (snd p)). destruct (leaves (snd p)); [contradiction|discriminate].
+Qed.
+
+(** a root with two children: something lies outside every proper subtree *)
+Lemma outside_nonempty t p s :
+  2 <= length (kids t) -> p <> [] -> node_at t p = Some s -> outside t p <> [].
+Proof.
+  destruct p as [|k q]; [congruence|]. intros H2 _ Hn. destruct t as [n c sl]. simpl in Hn.
+  cbn [outside]. destruct (nth_error sl k) as [[[e ch]|]|] eqn:E; try discriminate.
+  unfold kids in H2. cbn [uslots] in H2. rewrite (kids_of_nth _ _ _ E), app_length in H2. cbn [length] in H2.
+  revert H2. generalize (kids_of (firstn k sl)) as A, (kids_of (skipn (S k) sl)) as B. intros A B H2.
+  destruct A as [|a A].
+  - destruct B as [|b B]; [simpl in H2; lia|].
+    rewrite kleaves_nil. cbn [app]. intros X. apply app_eq_nil in X. destruct X as [X _].
+    revert X. apply kleaves_nonempty. discriminate.
+  - intros X. apply app_eq_nil in X. destruct X as [X _]. revert X. apply kleaves_nonempty. discriminate.
+Qed.
